@@ -2,10 +2,10 @@ package main
 
 import (
 	"fmt"
-	"time"
 	"go/constant"
 	"go/types"
 	"sync"
+	"time"
 
 	"golang.org/x/tools/go/ssa"
 )
@@ -237,31 +237,31 @@ type Exec struct {
 	bind      map[*Term]*Term
 	simpCache map[*Term]*Term
 
-	undo       []undoRec
-	logUndo    bool
-	deferStack []*frame
-	cur        *frame
-	cstack     []*frame
+	undo          []undoRec
+	logUndo       bool
+	deferStack    []*frame
+	cur           *frame
+	cstack        []*frame
 	lastRecovered *goPanic
 	pathDeadline  time.Time
-	stubs      map[string]*ssa.Function
-	stubOff    map[string]bool
-	stubOn     map[string]bool
+	stubs         map[string]*ssa.Function
+	stubOff       map[string]bool
+	stubOn        map[string]bool
 
-	violations []Violation
-	reaches    []string
-	unknownQ   int
-	stubsHit   map[string]bool
-	funcsRun   map[*ssa.Function]bool
-	assumes    map[string]bool
-	notes      []string // per-path notes (e.g. atom concretisation)
-	fs         *fsModel
-	methCache  map[methKey]*ssa.Function
-	env        map[string]Value // per-path scratch for models
-	atoms      bool
-	sentinels  map[string]Value
+	violations                 []Violation
+	reaches                    []string
+	unknownQ                   int
+	stubsHit                   map[string]bool
+	funcsRun                   map[*ssa.Function]bool
+	assumes                    map[string]bool
+	notes                      []string // per-path notes (e.g. atom concretisation)
+	fs                         *fsModel
+	methCache                  map[methKey]*ssa.Function
+	env                        map[string]Value // per-path scratch for models
+	atoms                      bool
+	sentinels                  map[string]Value
 	nAssertUnsat, nAssertConst int64
-	mapOrders  bool
+	mapOrders                  bool
 }
 
 type methKey struct {
@@ -1417,7 +1417,6 @@ func (x *Exec) mkRange(v Value) Value {
 	}
 	panic(fmt.Sprintf("range over %T", v))
 }
-
 
 func (x *Exec) mapOrder(n int) []int {
 	id := make([]int, n)
